@@ -162,5 +162,6 @@ def tasks(tier):
                 T.append(('fs', (a, b), 1, None))
         for a in ('MOVE1', 'COPY1:2', 'MULTIAPPEND'):
             for b in ('STORE1', 'FETCH1', 'MOVE1-too', 'SELECT', 'EXPUNGE3'):
-                T.append(('++', (a, b), 2, None))
+                for ch in mt.split_prefixes('++', (a, b), PROGRAMS, 2, 0):
+                    T.append(('++', (a, b), 2, None, 0, ch))
     return T
